@@ -6,7 +6,7 @@ from .common import Check, read_keyed, ROOT
 
 KINDS = ("HP", "HX", "HD", "HS", "B", "BD", "M", "MD", "Q", "QD", "S", "SD", "T",
          "CI", "CP", "XI", "XID", "XA", "XAD", "XB", "XBD", "XQ", "XQD", "XS", "XSD",
-         "A", "AR", "AD", "MC", "MF", "MTD", "MN", "MI")
+         "A", "AR", "AD", "MC", "MF", "MTD", "MN", "MI", "CE")
 # formats that have a Coq model (their T cases are supplementary tests); the others are tested-not-proved
 MODELLED_T = ("checkin", "bdx", "bleadv", "statusreport")
 PARTLY_MODELLED_T = ("mdns",)
@@ -29,6 +29,7 @@ KIND_TEXT = {
     "MF": "mDNS TXT fields: filter match, session parameters, TCP flag",
     "MTD": "mDNS TXT reader on arbitrary rdata", "MN": "mDNS instance-name label round trip",
     "MI": "mDNS instance-name label matching",
+    "CE": "X.509 extension values (key usage, extended key usage, basic constraints) of a converted Matter certificate",
 }
 
 
@@ -178,10 +179,13 @@ def main(tier, replay=None):
         "monitor_violations": mon_viol,
         "proved_formats": ["PlainHdr", "ProtoHdr", "base-38", "Verhoeff", "manual pairing code", "QR payload (fixed part + raw tail)",
                            "StatusReport", "check-in payload layout (symbolic AEAD)", "BDX message bodies",
-                           "BLE advertisement payloads", "mDNS TXT records + instance-name labels"],
+                           "BLE advertisement payloads", "mDNS TXT records + instance-name labels",
+                           "X.509 key-usage / extended-key-usage / basic-constraints extension values of the certificate conversion"],
         "tested_not_proved": {
             "note": "no Coq model: only the implementation's own encode/decode round trip and absence of panics are TESTED",
-            "formats": ["cert (Matter TLV -> X.509 DER)", "cd (certification declaration)",
+            "formats": ["cert (Matter TLV -> X.509 DER): whole TBSCertificate compared byte for byte with an independent "
+                        "harness-side conversion (certx: every key purpose id / subset, every key-usage bit, basic-constraints "
+                        "variants, all 22 DN attribute types, both time encodings); only the three enumerated extension values are modelled (CE)", "cd (certification declaration)",
                         "mdns DNS message framing (names, SRV/A/AAAA records; the domain crate)"],
             "cases": {k: v for k, v in tnp_counts.items() if k.split(":")[0] not in MODELLED_T},
             "violations": tnp_viol},
